@@ -1639,6 +1639,88 @@ unsafe fn error_text_sweep(ctx: &mut Ctx, max: usize) {
     haystack_value_destroy(time);
 }
 
+/// Every function that writes its answer through a result pointer, called with a result handle that already owns heap
+/// data (a Str, a List, a Dict, a Grid) and called twice in a row on the same handle: the previous content must be
+/// released, not overwritten (the leak detectors see the difference), and the answer must be the same as into a fresh one.
+unsafe fn holder_reuse_sweep(ctx: &mut Ctx) {
+    let mk_row = |k: &str, v: f64| -> *mut Value {
+        let d = Box::into_raw(haystack_value_make_dict());
+        let e = Box::into_raw(haystack_value_make_number(v));
+        let ck = cstr(k);
+        haystack_value_insert_dict_entry(d, ck.as_ptr(), e);
+        let s = Box::into_raw(haystack_value_make_str(cstr("some heap text that is long enough to be allocated").as_ptr()).unwrap());
+        let cs = cstr("dis");
+        haystack_value_insert_dict_entry(d, cs.as_ptr(), s);
+        haystack_value_destroy(e);
+        haystack_value_destroy(s);
+        d
+    };
+    let rows = Box::into_raw(haystack_value_make_list());
+    for (k, v) in [("site", 1.0), ("site", 2.0), ("equip", 3.0)] {
+        let r = mk_row(k, v);
+        haystack_value_push_list_entry(rows, r);
+        haystack_value_destroy(r);
+    }
+    let grid = own(haystack_value_make_grid_from_rows(rows));
+    let dict = mk_row("site", 9.0);
+    let ft = cstr("site");
+    let filt = haystack_filter_parse(ft.as_ptr()).map(Box::into_raw).unwrap_or(null_mut());
+    let date = own(haystack_value_make_date(2021, 3, 4));
+    let time = own(haystack_value_make_time(5, 6, 7));
+    let tz = cstr("Tokyo");
+    let dt = own(haystack_value_make_tz_datetime(date, time, tz.as_ptr()));
+    let _ = take_err();
+    let mut calls = 0u64;
+    let holders: [fn() -> *mut Value; 4] = [
+        || unsafe { Box::into_raw(haystack_value_make_str(cstr("a string owned by the result handle before the call").as_ptr()).unwrap()) },
+        || unsafe {
+            let l = Box::into_raw(haystack_value_make_list());
+            let e = Box::into_raw(haystack_value_make_str(cstr("list element text on the heap").as_ptr()).unwrap());
+            haystack_value_push_list_entry(l, e);
+            haystack_value_destroy(e);
+            l
+        },
+        || unsafe { Box::into_raw(haystack_value_make_dict()) },
+        || unsafe { Box::into_raw(haystack_value_init()) },
+    ];
+    for (hi, mk) in holders.iter().enumerate() {
+        for f in 0..6usize {
+            let out = mk();
+            let fresh = Box::into_raw(haystack_value_init());
+            let call = |o: *mut Value| -> ResultType {
+                match f {
+                    0 => haystack_value_get_grid_row_at(grid, 1, o),
+                    1 => haystack_filter_first_match_in_grid(filt, grid, o),
+                    2 => haystack_filter_match_all_grid(filt, grid, o),
+                    3 => haystack_value_get_dict_keys(dict, o),
+                    4 => haystack_value_get_datetime_date(dt, false, o),
+                    _ => haystack_value_get_datetime_time(dt, true, o),
+                }
+            };
+            let r0 = call(fresh);
+            let r1 = call(out);
+            let r2 = call(out); // the handle now holds the previous answer
+            calls += 3;
+            ctx.eval("holder-reuse", (hi * 10 + f) as u64, true);
+            if r0 != ResultType::TRUE || r1 != r0 || r2 != r0 || !same(&*out, &*fresh) {
+                ctx.violation("capi:holder-reuse:answer-depends-on-previous-content", &format!("out-parameter function #{f} into a result handle of kind #{hi}: {r0:?}/{r1:?}/{r2:?}, contents equal to a fresh handle's: {}", same(&*out, &*fresh)), json!({}));
+            }
+            let _ = take_err();
+            haystack_value_destroy(out);
+            haystack_value_destroy(fresh);
+        }
+    }
+    for p in [rows, grid, dict, date, time, dt] {
+        if !p.is_null() {
+            haystack_value_destroy(p);
+        }
+    }
+    if !filt.is_null() {
+        haystack_filter_destroy(filt);
+    }
+    ctx.evaluations += calls;
+}
+
 /// Dates at the edge of what a Date can hold (chrono's range is about +-262,000 years), combined with every sign of
 /// zone offset: every call must come back, with a value or with the failure sentinel and an error message; none may
 /// take the process down (local time = UTC + offset can leave the representable range).
@@ -1718,6 +1800,11 @@ unsafe fn extreme_dates(ctx: &mut Ctx) {
 }
 
 pub fn run(ctx: &mut Ctx, c18: bool) {
+    // in every worker (so that every sanitizer phase, whatever its number of shards, runs it)
+    if ctx.begin("holder-reuse", 0) {
+        unsafe { holder_reuse_sweep(ctx) };
+        ctx.stratum("holder-reuse-completed");
+    }
     if ctx.shard == 1 % ctx.nshards && !cfg!(miri) && ctx.begin("extreme-dates", 0) {
         unsafe { extreme_dates(ctx) };
         ctx.stratum("extreme-dates-completed");
